@@ -199,6 +199,15 @@ func checkC17(p *Prog, rp *Report) {
 			}
 		}
 	}
+	// consecutive entries whose headers carry the same option keys with different values (and the same values)
+	H3 := "hello (1.0-2) unstable; urgency=high\n"
+	H4 := "pkg-x (2:1.2~rc1-4) stable-security; urgency=low, binary-only=no\n"
+	H5 := "pkg-x (2:1.2~rc1-5) stable-security; urgency=high, binary-only=yes\n"
+	scripts = append(scripts,
+		[]string{H3, B, C1, B, T1, B, H1, B, C1, B, T2},
+		[]string{H1, B, C1, B, T1, B, H3, B, C1, B, T2, B, H1, B, C1, B, T1},
+		[]string{H2, B, C1, B, T1, B, H4, B, C1, B, T2},
+		[]string{H5, B, C1, B, T1, B, H2, B, C1, B, T2, B, H4, B, C1, B, T1})
 	// lines far longer than any reader buffer
 	longChange := "  * Closes: " + strings.Repeat("#123456, ", 700) + "\n"
 	scripts = append(scripts, []string{H1, B, longChange, C2, B, T1}, []string{H1, B, C1, B, T1, B, H2, B, longChange, B, T2})
